@@ -1,5 +1,6 @@
 import PestModel.Model.PStateSpec
 import PestModel.Lemmas.PStateInv
+import PestModel.Lemmas.PStateStackReaders
 /-!
 # C03 — parser-state combinators are all-or-nothing and match exactly (part 1: combinators)
 
@@ -101,5 +102,66 @@ theorem run_no_panic (cfg : Cfg) (fuel : Nat) (p : Prog) (s : PState) (hwf : s.W
     (hclosed : cfg.closed p) (hnp : cfg.noPeekPop p) (hdet : s.pa.enabled = false) :
     run cfg fuel p s ≠ .panic := by
   exact run_no_panic' cfg fuel p s hwf hclosed hnp hdet
+
+/-- **The stack readers do not move on failure**: when `PEEK`, `POP`, `PEEK_ALL`, `POP_ALL`, `PEEK[a..b]` or `DROP` fails, the
+position is where it was (for `POP_ALL` also when some entries had matched and were popped before the one that did not). -/
+theorem stack_readers_err_pos (cfg : Cfg) (fuel : Nat) (p : Prog) (s s' : PState)
+    (hp : p = .stackPeek ∨ p = .stackPop ∨ p = .stackMatchPeek ∨ p = .stackMatchPop ∨ p = .stackDrop ∨
+      ∃ a b d, p = .stackMatchPeekSlice a b d)
+    (h : run cfg (fuel + 1) p s = .err s') : s'.pos = s.pos := by
+  rcases hp with rfl | rfl | rfl | rfl | rfl | ⟨a, b, d, rfl⟩
+  · simp only [PS.run] at h
+    split at h
+    · simp at h; subst h; rfl
+    · split at h
+      · simp at h
+      · exact terminal_err_pos _ _ _ _ (fun p hp => posMatchString_false' hp) h
+  · simp only [PS.run] at h
+    split at h
+    · simp at h; subst h; rfl
+    · split at h
+      · simp at h
+      · simp at h
+      · have := terminal_err_pos _ _ _ _ (fun p hp => posMatchString_false' hp) h
+        simpa using this
+  · simp only [PS.run] at h
+    split at h
+    · simp at h
+    · split at h
+      · simp at h
+      · simp at h
+      · simp at h; subst h; rfl
+  · simp only [PS.run] at h
+    split at h
+    · simp at h
+    · simp at h
+    · simp at h; subst h; rfl
+  · simp only [PS.run] at h
+    split at h
+    · simp at h
+    · simp at h
+    · simp at h; subst h; rfl
+  · simp only [PS.run] at h
+    split at h
+    · simp at h; subst h; rfl
+    · split at h
+      · simp at h
+      · split at h
+        · simp at h
+        · simp at h
+        · simp at h; subst h; rfl
+
+/-- **`POP_ALL` on success**: the stack is empty and the position has advanced over exactly the texts of the entries, matched one
+after the other from the top down (what `PEEK_ALL` matches without popping). -/
+theorem stackMatchPop_ok (cfg : Cfg) (fuel : Nat) (s s' : PState) (h : PS.run cfg (fuel + 1) .stackMatchPop s = .ok s') :
+    s'.stack.cache = [] ∧ matchAll s.input s.stack.cache s.pos = some (true, s'.pos) := by
+  simp only [PS.run] at h
+  split at h
+  · simp at h
+  · rename_i st pos' hm
+    simp only [Out.ok.injEq] at h
+    subst h
+    exact matchPopLoop_ok _ _ _ _ _ _ (by omega) hm
+  · simp at h
 
 end PestModel.C03
